@@ -337,6 +337,55 @@ def end_to_end(ctx):
             if not (mac(ph, full) > 1 - 1e-6 and mac(ph, full.conj()) < 0.9):
                 col.violation("EFDD_MS/e2e/conjugation", f"EFDD_MS: MAC with amplitudes {mac(ph, full):.6f}, conj {mac(ph, full.conj()):.6f}", rep)
             col.mark_nontrivial(("e2e", "EFDD_MS", ai, line))
+    # two tones: a four times stronger neighbour six lines above the selected one, inside DF2 but outside DF1 - the first
+    # stage of EFDD / FSDD / EFDD_MS must pick inside sel +- DF1
+    df = fs / nxseg
+    for ai, line in [(0, lines[0]), (1 % len(AMPS), lines[-1])]:
+        amp = np.array([complex(a, b) for a, b in AMPS[ai]])
+        amp_b = 4 * np.array([1.0, -2.0 + 1j, 0.5j])
+        f0, f1 = line * df, (line + 6) * df
+        x = (np.real(amp[None, :] * np.exp(2j * np.pi * f0 * t)[:, None]) + np.real(amp_b[None, :] * np.exp(2j * np.pi * f1 * t)[:, None])
+             + 1e-3 * rng.standard_normal((n, 3)))
+        rep = {"e2e": True, "two_tone": True, "amp": AMPS[ai], "line": line}
+        ss = SingleSetup(x, fs=fs)
+        ms = MultiSetup_PreGER(fs=fs, ref_ind=[[0, 1], [0, 1]], datasets=[x[:, [0, 1, 2]], x[:, [0, 1, 2]]])
+        a1, a2 = A.EFDD(name="efdd", nxseg=nxseg, method_SD="per", pov=0.5), A.FSDD(name="fsdd", nxseg=nxseg, method_SD="per", pov=0.5)
+        a3 = A.EFDD_MS(name="efddms", nxseg=nxseg, method_SD="per", pov=0.5)
+        ss.add_algorithms(a1, a2)
+        ss.run_all()
+        ms.add_algorithms(a3)
+        ms.run_all()
+        for a, want in ((a1, amp), (a2, amp), (a3, np.array([amp[0], amp[1], amp[2], amp[2]]))):
+            tag = type(a).__name__
+            col.count()
+            spy, orig = {}, fdd.FDD_mpe
+
+            def wrapped2(*aa, **kk):
+                r = orig(*aa, **kk)
+                spy["Fn"], spy["Phi"] = r
+                return r
+
+            fdd.FDD_mpe = wrapped2
+            try:
+                a.mpe(sel_freq=[f0], DF1=2 * df, DF2=16 * df, sppk=1, npmax=6)
+            except Exception as e:
+                spy["err"] = repr(e)
+            finally:
+                fdd.FDD_mpe = orig
+            if "Fn" not in spy:
+                col.violation(f"{tag}/e2e/no_result", f"{tag}: no first-stage result ({spy.get('err')})", rep)
+                continue
+            k = int(round(float(np.atleast_1d(spy["Fn"])[0]) / df))
+            if abs(k - line) > 2:
+                col.violation(f"{tag}/e2e/first_stage_outside_DF1", f"{tag}: first stage picked line {k}; selected line {line}, DF1 = 2 lines "
+                              f"(a stronger tone sits at line {line + 6}, inside DF2 = 16 lines)", rep)
+                continue
+            phi = a.result.Phi if a.result.Phi is not None else spy["Phi"]
+            ph = np.asarray(phi)[:, 0]
+            if not mac(ph, want) > 0.999:
+                col.violation(f"{tag}/e2e/shape_of_another_line", f"{tag}: returned shape has MAC {mac(ph, want):.4f} with the amplitudes of the "
+                              f"selected tone (line {line}); neighbour at line {line + 6}", rep)
+            col.mark_nontrivial(("e2e2", tag, ai, line))
     col.traces = len(cases)
     col.sample({"end_to_end": "sinusoid", "amplitudes": AMPS[0], "line": lines[0], "nxseg": nxseg, "fs": fs}, cap=1)
     ctx.merge(col)
